@@ -53,7 +53,7 @@ def classify(o, cd, out_name="out.sqfs"):
     return None
 
 
-SPARSE_WORK_LIMIT = 1 << 26     # bytes of declared sparse real size that -b 4096 packs well inside the CPU budget (16384 blocks)
+SPARSE_WORK_LIMIT = 1 << 24     # bytes of declared sparse real size that -b 4096 packs well inside the CPU budget (4096 blocks)
 
 
 def declared_sparse_size(blob):
@@ -61,19 +61,20 @@ def declared_sparse_size(blob):
     archive structure: PAX GNU.sparse.size / GNU.sparse.realsize records anywhere, and the realsize field of every 512-aligned block
     whose typeflag is 'S'. tar2sqfs legitimately does work proportional to that number (it packs the holes), so a run that exceeds the
     CPU budget on an input declaring more than SPARSE_WORK_LIMIT is 'slow by declaration', not an endless loop."""
-    best = 0
+    cands = []
     for m in re.finditer(rb"GNU\.sparse\.(?:size|realsize)=(\d{1,40})", blob):
-        best = max(best, int(m.group(1)))
+        cands.append(int(m.group(1)))
     for off in range(0, len(blob) - 511, 512):
         if blob[off + 156:off + 157] == b"S":
             f = blob[off + 483:off + 495]
             if f[0] & 0x80:
-                best = max(best, int.from_bytes(bytes([f[0] & 0x7f]) + f[1:], "big"))
+                cands.append(int.from_bytes(bytes([f[0] & 0x7f]) + f[1:], "big"))
             else:
                 m = re.match(rb"\s*([0-7]+)", f)
                 if m:
-                    best = max(best, int(m.group(1), 8))
-    return best
+                    cands.append(int(m.group(1), 8))
+    # a value that does not fit into 64 bits cannot be a size the tool legitimately works through: it has to be refused
+    return max([c for c in cands if c < (1 << 64)] or [0])
 
 
 def run_t2s(bdir, cd, blob, cpu=10):
@@ -147,7 +148,7 @@ EXTREME = [b"0", b"1", b"-1", b"2147483647", b"2147483648", b"4294967295", b"429
            b"00000000000000000000000000000012", b"1e9", b"0x10", b" 12", b"12 ", b""]
 
 
-SMALL = [b"8", b"4096", b"100000", b"67108864", b"5000000", b"12", b"4097"]
+SMALL = [b"8", b"4096", b"100000", b"16777216", b"5000000", b"12", b"4097"]
 
 
 def pax_hostile_archives(r, n):
@@ -207,7 +208,8 @@ def pax_hostile_archives(r, n):
                 t[i * 24:i * 24 + 12] = r.choice([b"77777777777\0", b"00000000000\0", b"\x80" + b"\xff" * 11, b"00000001000\0"])
                 t[i * 24 + 12:i * 24 + 24] = r.choice([b"77777777777\0", b"00000000000\0", b"\xff" * 12, b"00000000010\0"])
             t[96] = r.choice([0, 1])
-            t[97:109] = r.choice([b"77777777777\0", b"00000000000\0", b"\x80" + b"\xff" * 11, b"00000100000\0", b"00000000020\0", b"00377777777\0"])
+            t[97:109] = r.choice([b"77777777777\0", b"00000000000\0", b"\x80" + b"\xff" * 11, b"00000100000\0", b"00000000020\0", b"00377777777\0",
+                                   b"\x80\0\0\x01" + b"\0" * 8, b"\x80\0\0\0\x80" + b"\0" * 7, b"\x80\x01" + b"\0" * 10])
             out.append(("gnu-sparse-old", "hostile in-header sparse entries", member(None, typeflag=b"S", sparse_tail=bytes(t), magic=b"ustar  \0") + tail))
         elif k == 7:    # xattr records: empty keys, huge base64, bad url-encoding
             recs = r.choice([b"SCHILY.xattr.", b"SCHILY.xattr.user.", b"LIBARCHIVE.xattr.", b"LIBARCHIVE.xattr.user.%", b"LIBARCHIVE.xattr.user.%zz", b"LIBARCHIVE.xattr.user.a%4"])
@@ -278,7 +280,7 @@ def tar_work(a):
                 else:
                     muts = list(tar_mutations(data, r, 25, 45))
             for cls, desc, blob in muts:
-                o = run_t2s(bdir, cd, blob)
+                o = run_t2s(bdir, cd, blob, cpu=5 if mode == "numbers" else 10)
                 res["runs"] += 1
                 res["classes"][cls.split(":")[0]] = res["classes"].get(cls.split(":")[0], 0) + 1
                 cl = classify(o, cd)
@@ -390,7 +392,7 @@ def main():
         items.append(("tar", (bdir, derive(seed, "c07w", i) >> 1, "wrapped")))
     for i in range(2 * mult):
         items.append(("tar", (bdir, derive(seed, "c07l", i) >> 1, "links")))
-    for i in range(4 * mult):
+    for i in range(8 * mult):
         items.append(("tar", (bdir, derive(seed, "c07n", i) >> 1, "numbers")))
     for i in range(8 * mult):
         items.append(("text", (bdir, derive(seed, "c07t", i) >> 1)))
